@@ -263,7 +263,7 @@ def fragment_order_perms(g, rng, limit=4):
         orders = [list(o) for o in itertools.permutations(range(len(comps)))][1:]
         rng.shuffle(orders)
     else:
-        orders = [rng.sample(range(len(comps)), len(comps)) for _ in range(limit)] + [list(range(len(comps)))[::-1]]
+        orders = [list(range(len(comps)))[::-1]] + [rng.sample(range(len(comps)), len(comps)) for _ in range(limit)]     # the reverse order first: every pair swapped
     out = []
     for o in orders[:limit]:
         perm, nxt = {}, 0
